@@ -227,6 +227,7 @@
 #endif
 
 #include "assert.hpp"
+#include "verif_hooks.hpp"
 
 namespace unodb {
 
@@ -237,6 +238,7 @@ namespace unodb {
 // TODO(laurynas): move to unodb::detail namespace
 // LCOV_EXCL_START
 inline void spin_wait_loop_body() noexcept {
+  UNODB_DETAIL_VERIF_POINT(UNODB_DETAIL_VERIF_SPIN, nullptr);
 #if UNODB_SPINLOCK_LOOP_VALUE == UNODB_DETAIL_SPINLOCK_LOOP_PAUSE
 
 #if defined(UNODB_DETAIL_X86_64)
@@ -361,11 +363,13 @@ class [[nodiscard]] optimistic_lock final {
    public:
     /// Atomically load the lock word with acquire memory ordering.
     [[nodiscard]] version_type load_acquire() const noexcept {
+      UNODB_DETAIL_VERIF_POINT(UNODB_DETAIL_VERIF_LOCK_LOAD, &version);
       return version_type{version.load(std::memory_order_acquire)};
     }
 
     /// Atomically load the lock word with relaxed memory ordering.
     [[nodiscard]] version_type load_relaxed() const noexcept {
+      UNODB_DETAIL_VERIF_POINT(UNODB_DETAIL_VERIF_LOCK_LOAD, &version);
       return version_type{version.load(std::memory_order_relaxed)};
     }
 
@@ -377,6 +381,7 @@ class [[nodiscard]] optimistic_lock final {
     [[nodiscard]] bool cas_acquire(version_type expected,
                                    version_type new_val) noexcept {
       auto expected_val = expected.get();
+      UNODB_DETAIL_VERIF_POINT(UNODB_DETAIL_VERIF_LOCK_CAS, &version);
       return UNODB_DETAIL_LIKELY(version.compare_exchange_strong(
           expected_val, new_val.get(), std::memory_order_acquire,
           std::memory_order_relaxed));
@@ -393,6 +398,7 @@ class [[nodiscard]] optimistic_lock final {
       UNODB_DETAIL_ASSERT(old_lock_word.is_write_locked());
 
       const auto new_lock_word = old_lock_word.get() + 2;
+      UNODB_DETAIL_VERIF_POINT(UNODB_DETAIL_VERIF_LOCK_STORE, &version);
       version.store(new_lock_word, std::memory_order_release);
     }
 
@@ -407,6 +413,7 @@ class [[nodiscard]] optimistic_lock final {
       UNODB_DETAIL_ASSERT(old_lock_word.is_write_locked());
 #endif
 
+      UNODB_DETAIL_VERIF_POINT(UNODB_DETAIL_VERIF_LOCK_STORE, &version);
       version.store(version_type::obsolete_lock_word,
                     std::memory_order_release);
 
@@ -912,11 +919,13 @@ class [[nodiscard]] in_critical_section final {
 
   /// Explicitly read the wrapped value.
   [[nodiscard]] T load() const noexcept {
+    UNODB_DETAIL_VERIF_POINT(UNODB_DETAIL_VERIF_FIELD_LOAD, &value);
     return value.load(std::memory_order_relaxed);
   }
 
   /// Explicitly assign the wrapped value from \a new_value.
   void store(T new_value) noexcept {
+    UNODB_DETAIL_VERIF_POINT(UNODB_DETAIL_VERIF_FIELD_STORE, &value);
     value.store(new_value, std::memory_order_relaxed);
   }
 
